@@ -2,6 +2,7 @@
 //! cases and write one line per case (`fn<TAB>args...<TAB>impl-output`) for the Lean driver.
 mod alloc;
 mod common;
+mod c14;
 mod c11;
 mod c19;
 mod c03;
@@ -50,6 +51,7 @@ fn exec(prop: &str, f: &[String]) -> Option<String> {
         "C13" => c13::exec(f),
         "C19" => c19::exec(f),
         "C11" => c11::exec(f),
+        "C14" => c14::exec(f),
         _ => None,
     }
 }
@@ -115,6 +117,7 @@ fn main() {
         "C13" => c13::gen(&mut out, thorough, seed),
         "C19" => c19::gen(&mut out, thorough, seed),
         "C11" => c11::gen(&mut out, thorough, seed),
+        "C14" => c14::gen(&mut out, thorough, seed),
         other => {
             eprintln!("unknown property {}", other);
             std::process::exit(2);
